@@ -305,17 +305,31 @@ where
         transfer: Transfer,
         payload: Payload,
     ) -> Result<Option<Disposition>, Self::Error> {
-        let (txn, txn_id) = match &transfer.state {
-            Some(DeliveryState::TransactionalState(state)) => {
-                let txn_id = &state.txn_id;
-                self.txn_manager
-                    .txns
-                    .get_mut(txn_id)
-                    .map(|txn| (txn, txn_id.clone()))
-                    .ok_or(S::Error::UnknownTxnId)?
-            }
-            Some(_) | None => return self.session.on_incoming_transfer(transfer, payload).await,
+        // A delivery is posted under the transaction named on its first transfer. The transfers
+        // that continue it need not repeat the state; they are withheld with the first one
+        // rather than handed to the link on their own.
+        let txn_id = match &transfer.state {
+            Some(DeliveryState::TransactionalState(state)) => state.txn_id.clone(),
+            Some(_) | None => match self.txn_manager.incomplete_posts.get(&transfer.handle) {
+                Some(txn_id) if transfer.delivery_tag.is_none() => txn_id.clone(),
+                Some(_) | None => {
+                    return self.session.on_incoming_transfer(transfer, payload).await
+                }
+            },
         };
+        if transfer.more {
+            let _ = self
+                .txn_manager
+                .incomplete_posts
+                .insert(transfer.handle.clone(), txn_id.clone());
+        } else {
+            let _ = self.txn_manager.incomplete_posts.remove(&transfer.handle);
+        }
+        let txn = self
+            .txn_manager
+            .txns
+            .get_mut(&txn_id)
+            .ok_or(S::Error::UnknownTxnId)?;
 
         Ok(txn.on_incoming_post(txn_id, transfer, payload))
     }
